@@ -152,6 +152,13 @@ class C13(Property):
         for k in (2, 3, 4) if tier == "quick" else (2, 3, 4, 5):
             for combo in itertools.product(tvar, repeat=k):
                 cases.append(Case("cpops " + " ".join(combo + (PROBE_TOKS,)), tags=("exhaustive-timing-payload",)))
+        # difficulty / effect points whose values are different doubles closer than f64::EPSILON (0.75 and its successor, 1 and its
+        # predecessor): "merely repeats" is |a - b| < EPSILON, also against the implicit default (seed C13-j)
+        near = [f"D:{bits(t)}:{bits(v)}:1" for t in (0.0, 1.0) for v in (0.75, 0.7500000000000001, 1.0, 0.9999999999999999)]
+        near += [f"E:{bits(t)}:1:{bits(v)}" for t in (0.0, 1.0) for v in (0.75, 0.7500000000000001)] + [f"E:{bits(1.0)}:0:{bits(0.9999999999999999)}"]
+        for k in (1, 2, 3):
+            for combo in itertools.product(near, repeat=k):
+                cases.append(Case("cpops " + " ".join(combo + (PROBE_TOKS,)), tags=("exhaustive-near-equal-values",)))
         # F8 witnesses and neighbours
         for a, b in [(PZERO, NZERO), (NZERO, PZERO), (PZERO, PZERO), (NZERO, NZERO)]:
             for kind in "TDES":
@@ -188,10 +195,13 @@ class C13(Property):
                 elif r < 0.2:   # every payload field of a timing point varies: beat length, omit-first-bar-line, signature
                     toks.append(f"T:{t}:{bits(rng.choice([500.0, 500.0, 250.0, 400.0]))}:{rng.choice('01')}:{rng.choice([4, 4, 3, 7, 1])}")
                 elif r < 0.45:
-                    sv = rng.choice([1.0, 1.0, 2.0, 1.0 + eps / 2, 1.0 + 2 * eps, 0.05, 0.1, 10.0, 20.0, float("nan"), 0.75, rng.uniform(0, 12)])
+                    # 0.75 / its successor and 1 - eps/2 / 1: different doubles closer than f64::EPSILON (only possible below 1.0) - the redundancy
+                    # test is |a - b| < EPSILON, not == (seed C13-j)
+                    sv = rng.choice([1.0, 1.0, 2.0, 1.0 + eps / 2, 1.0 + 2 * eps, 0.05, 0.1, 10.0, 20.0, float("nan"), 0.75, 0.75, 0.7500000000000001,
+                                     0.9999999999999999, 0.5, 0.5000000000000001, rng.uniform(0, 12)])
                     toks.append(f"D:{t}:{bits(sv)}:{rng.choice('1110')}")
                 elif r < 0.65:
-                    sc = rng.choice([1.0, 1.0, 1.0, 2.0, 1.0 + eps / 2, 0.01, float("nan"), rng.uniform(0, 12)])
+                    sc = rng.choice([1.0, 1.0, 1.0, 2.0, 1.0 + eps / 2, 0.01, float("nan"), 0.75, 0.7500000000000001, 0.9999999999999999, rng.uniform(0, 12)])
                     toks.append(f"E:{t}:{rng.choice('01')}:{bits(sc)}")
                 elif r < 0.85:
                     toks.append(f"S:{t}:{rng.choice([0, 1, 1, 2, 3])}:{rng.choice([100, 100, 50, 0, -5, 101, 150, 2147483647, -2147483648])}:{rng.choice([0, 0, 1, 2, -1])}")
